@@ -3,7 +3,7 @@
    pressure is the environment step [evict] with ANY key list, so the theorems hold for every
    choice the clock and the memory-pressure arithmetic could make). *)
 From Coq Require Import List Bool NArith.
-From Akd Require Import Manager ManagerFacts.
+From Akd Require Import Manager ManagerFacts MgrBatch.
 Import ListNotations.
 Open Scope N_scope.
 
@@ -35,6 +35,14 @@ Theorem C16_read : forall s k, Inv s ->
   end.
 Proof. exact get_record_spec. Qed.
 Print Assumptions C16_read.
+
+(* batch reads outside a transaction: exactly the database's records of the requested keys, whatever
+   part of them the cache holds *)
+Theorem C16_batch_read : forall s ks, Inv s -> m_active s = false ->
+  exists l, snd (batch_get s ks false) = Ok l /\
+            forall r, In r l <-> exists k, In k ks /\ kget (m_db s) k = Some r.
+Proof. exact batch_get_is_db. Qed.
+Print Assumptions C16_batch_read.
 
 (* after a flush the next read of the epoch record reflects storage *)
 Theorem C16_flush : forall s, m_active s = false ->
